@@ -79,35 +79,68 @@ theorem VocabData.vocab_wf (D : VocabData) : D.vocab.Wf := by
   refine ⟨?_, h2⟩
   simp [VocabData.vocab, List.getD, h3]
 
-theorem specialStringsFrom_mem (types : List Nat) (vs : List Str) (i : Nat) (l : List Str)
-    (h : specialStringsFrom types vs i = some l) : ∀ s ∈ l, s ∈ vs := by
+theorem specialStringsFrom_mem (sk : Bool) (types : List Nat) (vs : List Str) (i : Nat) (l : List Str)
+    (h : specialStringsFrom sk types vs i = some l) : ∀ s ∈ l, s ∈ vs := by
   induction vs generalizing i l with
   | nil => simp [specialStringsFrom] at h; subst h; simp
   | cons v vs ih =>
     simp only [specialStringsFrom] at h
     split at h
-    · simp only [Option.map_eq_some_iff] at h
-      obtain ⟨r, hr, rfl⟩ := h
-      intro s hs
-      rcases List.mem_cons.mp hs with rfl | hs
-      · simp
-      · exact List.mem_cons_of_mem _ (ih _ _ hr s hs)
+    · intro s hs
+      exact List.mem_cons_of_mem _ (ih _ _ h s hs)
     · split at h
-      · cases h
       · simp only [Option.map_eq_some_iff] at h
         obtain ⟨r, hr, rfl⟩ := h
         intro s hs
-        split at hs
-        · rcases List.mem_cons.mp hs with rfl | hs
-          · simp
-          · exact List.mem_cons_of_mem _ (ih _ _ hr s hs)
+        rcases List.mem_cons.mp hs with rfl | hs
+        · simp
         · exact List.mem_cons_of_mem _ (ih _ _ hr s hs)
+      · split at h
+        · cases h
+        · simp only [Option.map_eq_some_iff] at h
+          obtain ⟨r, hr, rfl⟩ := h
+          intro s hs
+          split at hs
+          · rcases List.mem_cons.mp hs with rfl | hs
+            · simp
+            · exact List.mem_cons_of_mem _ (ih _ _ hr s hs)
+          · exact List.mem_cons_of_mem _ (ih _ _ hr s hs)
+
+/-- the repaired loop never returns the empty string -/
+theorem specialStringsFrom_skip_nonempty (types : List Nat) (vs : List Str) (i : Nat) (l : List Str)
+    (h : specialStringsFrom true types vs i = some l) : [] ∉ l := by
+  induction vs generalizing i l with
+  | nil => simp [specialStringsFrom] at h; subst h; simp
+  | cons v vs ih =>
+    simp only [specialStringsFrom] at h
+    split at h
+    · exact ih _ _ h
+    · rename_i hv
+      have hvne : v ≠ [] := fun hc => hv ⟨trivial, hc⟩
+      split at h
+      · simp only [Option.map_eq_some_iff] at h
+        obtain ⟨r, hr, rfl⟩ := h
+        intro hm
+        rcases List.mem_cons.mp hm with hm | hm
+        · exact hvne hm.symm
+        · exact ih _ _ hr hm
+      · split at h
+        · cases h
+        · simp only [Option.map_eq_some_iff] at h
+          obtain ⟨r, hr, rfl⟩ := h
+          intro hm
+          split at hm
+          · rcases List.mem_cons.mp hm with hm | hm
+            · exact hvne hm.symm
+            · exact ih _ _ hr hm
+          · exact ih _ _ hr hm
 
 /-- which strings `SpecialVocabulary` returns: exactly the `Values[i]` that are a turn marker or whose
-    `Types[i]` is CONTROL (when `Types` is long enough, i.e. the call does not panic) -/
-theorem specialStringsFrom_iff (types : List Nat) (vs : List Str) (i : Nat) (l : List Str)
-    (h : specialStringsFrom types vs i = some l) (s : Str) :
-    s ∈ l ↔ ∃ k, vs[k]? = some s ∧ (s = startOfTurn ∨ s = endOfTurn ∨ types[i + k]? = some tokenTypeControl) := by
+    `Types[i]` is CONTROL (when the call does not panic) — and, in the repaired variant, are not empty -/
+theorem specialStringsFrom_iff (sk : Bool) (types : List Nat) (vs : List Str) (i : Nat) (l : List Str)
+    (h : specialStringsFrom sk types vs i = some l) (s : Str) :
+    s ∈ l ↔ ¬ (sk = true ∧ s = []) ∧
+      ∃ k, vs[k]? = some s ∧ (s = startOfTurn ∨ s = endOfTurn ∨ types[i + k]? = some tokenTypeControl) := by
   induction vs generalizing i l with
   | nil => simp [specialStringsFrom] at h; subst h; simp
   | cons v vs ih =>
@@ -130,65 +163,75 @@ theorem specialStringsFrom_iff (types : List Nat) (vs : List Str) (i : Nat) (l :
                rw [this]; exact hp⟩
     rw [shift (fun s j => s = startOfTurn ∨ s = endOfTurn ∨ types[j]? = some tokenTypeControl)]
     split at h
-    · rename_i hv
-      simp only [Option.map_eq_some_iff] at h
-      obtain ⟨r, hr, rfl⟩ := h
-      rw [List.mem_cons, ih _ _ hr]
+    · -- skipped empty value
+      rename_i hskip
+      rw [ih _ _ h]
       constructor
-      · rintro (rfl | h)
-        · left; exact ⟨rfl, by rcases hv with h | h <;> simp [h]⟩
-        · right; exact h
-      · rintro (⟨h, _⟩ | h)
-        · left; exact h.symm
-        · right; exact h
-    · rename_i hv
+      · rintro ⟨h1, h2⟩; exact ⟨h1, Or.inr h2⟩
+      · rintro ⟨h1, h2 | h2⟩
+        · exfalso; exact h1 ⟨hskip.1, by rw [← h2.1]; exact hskip.2⟩
+        · exact ⟨h1, h2⟩
+    · rename_i hnskip
       split at h
-      · cases h
-      · rename_i t ht
+      · rename_i hv
         simp only [Option.map_eq_some_iff] at h
         obtain ⟨r, hr, rfl⟩ := h
-        split
-        · rename_i htc
-          rw [List.mem_cons, ih _ _ hr]
-          constructor
-          · rintro (rfl | h)
-            · left; exact ⟨rfl, Or.inr (Or.inr (by rw [ht, htc]))⟩
-            · right; exact h
-          · rintro (⟨h, _⟩ | h)
-            · left; exact h.symm
-            · right; exact h
-        · rename_i htc
-          rw [ih _ _ hr]
-          constructor
-          · intro h; right; exact h
-          · rintro (⟨h, hp⟩ | h)
-            · subst h
-              rcases hp with hp | hp | hp
-              · exact absurd (Or.inl hp) hv
-              · exact absurd (Or.inr hp) hv
-              · rw [ht] at hp; cases hp; exact absurd rfl htc
-            · exact h
+        rw [List.mem_cons, ih _ _ hr]
+        constructor
+        · rintro (rfl | ⟨h1, h2⟩)
+          · exact ⟨hnskip, Or.inl ⟨rfl, by rcases hv with h | h <;> simp [h]⟩⟩
+          · exact ⟨h1, Or.inr h2⟩
+        · rintro ⟨h1, ⟨h, _⟩ | h2⟩
+          · left; exact h.symm
+          · right; exact ⟨h1, h2⟩
+      · rename_i hv
+        split at h
+        · cases h
+        · rename_i t ht
+          simp only [Option.map_eq_some_iff] at h
+          obtain ⟨r, hr, rfl⟩ := h
+          split
+          · rename_i htc
+            rw [List.mem_cons, ih _ _ hr]
+            constructor
+            · rintro (rfl | ⟨h1, h2⟩)
+              · exact ⟨hnskip, Or.inl ⟨rfl, Or.inr (Or.inr (by rw [ht, htc]))⟩⟩
+              · exact ⟨h1, Or.inr h2⟩
+            · rintro ⟨h1, ⟨h, _⟩ | h2⟩
+              · left; exact h.symm
+              · right; exact ⟨h1, h2⟩
+          · rename_i htc
+            rw [ih _ _ hr]
+            constructor
+            · rintro ⟨h1, h2⟩; exact ⟨h1, Or.inr h2⟩
+            · rintro ⟨h1, ⟨h, hp⟩ | h2⟩
+              · subst h
+                rcases hp with hp | hp | hp
+                · exact absurd (Or.inl hp) hv
+                · exact absurd (Or.inr hp) hv
+                · rw [ht] at hp; cases hp; exact absurd rfl htc
+              · exact ⟨h1, h2⟩
 
-/-- every special token `Encode` works with has its id in range and `Values[id]` = its string -/
-theorem VocabData.specials_wf (D : VocabData) (toLit : Str → Str) :
-    ∀ q ∈ D.specials toLit, q.id < D.vocab.size ∧ D.vocab.tokStr q.id = q.runes ∧ q.lit = toLit q.runes ∧
-      q.runes ∈ D.values := by
+/-- every special token `Encode` works with (the strings `SpecialVocabulary()` returned) has its id in range and
+    `Values[id]` = its string -/
+theorem VocabData.specialsOf_wf (D : VocabData) (sk : Bool) (toLit : Str → Str) (sps : List Str)
+    (hsp : D.specialStrings sk = some sps) :
+    ∀ q ∈ D.specialsOf toLit sps, q.id < D.vocab.size ∧ D.vocab.tokStr q.id = q.runes ∧ q.lit = toLit q.runes ∧
+      q.runes ∈ sps := by
   intro q hq
-  simp only [VocabData.specials, List.mem_map] at hq
+  simp only [VocabData.specialsOf, List.mem_map] at hq
   obtain ⟨s, hs, rfl⟩ := hq
-  have hmem : s ∈ D.values := by
-    unfold VocabData.specialStrings at hs
-    cases hopt : specialStringsFrom D.types D.values 0 with
-    | none => simp [hopt] at hs
-    | some l =>
-      rw [hopt] at hs
-      exact specialStringsFrom_mem _ _ _ _ hopt s (by simpa using hs)
+  have hmem : s ∈ D.values := specialStringsFrom_mem _ _ _ _ _ hsp s hs
   have hsome := lastIdxFrom_isSome D.values 0 s hmem
   obtain ⟨i, hi⟩ := Option.isSome_iff_exists.mp hsome
   have hi' : D.vocab.tokId s = some i := hi
   have := D.vocab_wf s i hi'
   simp only [hi', Option.getD_some]
-  exact ⟨this.2, this.1, trivial, hmem⟩
+  exact ⟨this.2, this.1, trivial, hs⟩
+
+theorem VocabData.specials_eq (D : VocabData) (sk : Bool) (toLit : Str → Str) (sps : List Str)
+    (hsp : D.specialStrings sk = some sps) : D.specials sk toLit = D.specialsOf toLit sps := by
+  simp [VocabData.specials, hsp]
 
 /-! ## fuel sufficiency: the model's merge loop stops because the queue is empty, never because fuel ran out -/
 
